@@ -148,6 +148,7 @@ class CheckRun:
         known_hits = []
         nonrepro = []
         for f in self.findings:
+            if f.confirmed == 'skipped': continue
             if f.confirmed is False:
                 nonrepro.append(f); continue
             if f.confirmed is None:
